@@ -2090,6 +2090,13 @@ func opcodeCheckMultiSig(op *ParsedOpcode, t *thread) error {
 		return errs.NewError(errs.ErrTooManyOperations, "exceeded max operation limit of %d", t.cfg.MaxOps())
 	}
 
+	// The keys have to be on the stack: fail like the pops below would, rather
+	// than size a slice from a count the script merely claims.
+	if int64(numPubKeys) > int64(t.dstack.Depth()) {
+		return errs.NewError(errs.ErrInvalidStackOperation,
+			"%d pubkeys claimed but the stack holds %d items", numPubKeys, t.dstack.Depth())
+	}
+
 	pubKeys := make([][]byte, 0, numPubKeys)
 	for i := 0; i < numPubKeys; i++ {
 		pubKey, err := t.dstack.PopByteArray() //nolint:govet // ignore shadowed error
